@@ -2,7 +2,7 @@
 import re
 
 from engine import rule, AnchorLost
-from model import enum_edge, Super, PathSens, fn_of, trace, strace, is_place, site, const_value
+from model import enum_edge, Super, PathSens, fn_of, trace, strace, is_place, site, const_value, uses_of_local
 import common
 
 PARSER_CRATES = {"serde_json", "rmp_serde", "rmp", "serde_yaml", "toml", "toml_edit", "unsafe_libyaml"}
@@ -379,6 +379,162 @@ def r09_5(ctx):
                             if e and b.edge_dominates(e[0], e[1], e[2], bi):
                                 ok = True
         ctx.ob("message-on-none-arm", ok, site(b, bi), "the error is built only when detection returned None" if ok else "the 'unable to detect' error is not tied to detection returning None")
+
+
+@rule("R09.8", 1, "a trial's verdict does not depend on whether the same bytes are in memory or behind a reader (no input-kind-specific give-up)", ["C09", "C02", "C10"])
+def r09_8(ctx):
+    lib = ctx.lib
+    trials = common.trial_functions(ctx.facts)
+    n = 0
+    for fmt, trial in sorted(trials.items()):
+        sup = Super(lib, trial, depth=3)
+        ps = PathSens(sup)
+        ref_adt = None
+        for path_, a in lib.adts.items():
+            if a["crate"] == "xt" and a["kind"] == "enum" and path_.split("<")[0] in trial.local_ty(1) and len(a["variants"]) == 2:
+                ref_adt = a
+        ctx.need(ref_adt, f"input enum of the {fmt} trial not found")
+        readers = [v_["idx"] for v_ in ref_adt["variants"] if not any("[u8]" in f_["ty"] for f_ in v_["fields"])]
+        ctx.need(len(readers) == 1, "reader variant of the trial's input enum not identified")
+        redges = []
+        for sn in sorted(sup.nodes(), key=str):
+            sb = sup.body_of(sn)
+            t = sb.blocks[sn[1]]["term"]
+            if t["k"] != "switch":
+                continue
+            for s_ in sb.blocks[sn[1]]["stmts"]:
+                if s_["k"] == "assign" and s_["rv"]["k"] == "discr" and ref_adt["path"].split("<")[0] in s_["rv"]["p"]["ty"]:
+                    e = enum_edge(sb, sn[1], readers[0])
+                    if e:
+                        redges.append((sn, e[1], (sn[0], e[2])))
+        # size constants handed to the prefix accessor, compared again under the reader arm
+        caps = set()
+        for nn, bx, t in sup.calls():
+            f = fn_of(t) or {}
+            cb = lib.by_id.get(f.get("resolved") or f.get("def"))
+            if cb and cb.raw.get("ret_ty", "").startswith("std::result::Result<&[u8], std::io::Error>") and len(t["args"]) == 2:
+                tr = strace(sup, nn, t["args"][1])
+                v = const_value(t["args"][1]) if t["args"][1].get("k") == "const" else (tr.origin[1].get("v") if tr.origin and tr.origin[0] == "const" else None)
+                if isinstance(v, int):
+                    caps.add(v)
+        hit = None
+        for cn in sorted(sup.nodes(), key=str):
+            cbody = sup.body_of(cn)
+            for s_ in cbody.blocks[cn[1]]["stmts"]:
+                if s_["k"] == "assign" and s_["rv"]["k"] == "binop" and s_["rv"]["op"] in ("Ge", "Gt", "Lt", "Le") and (const_value(s_["rv"]["b"]) in caps or const_value(s_["rv"]["a"]) in caps):
+                    if any(ps.edge_dominates(e[0], e[1], e[2], cn) for e in redges):
+                        hit = cn
+        n += 1
+        ctx.ob(f"{fmt}:size-cap-on-reader-arm" if hit else f"{fmt}:same-verdict-for-slice-and-reader", hit is None, sup.site(hit) if hit else site(trial),
+               "no give-up that applies to reader input only" if hit is None else
+               "the trial gives up at a size cap for reader input only: the same bytes are recognised from a file/slice and rejected from a pipe")
+    ctx.ob("trials-examined", n == 4, "lib", f"{n} trial(s) examined", trivial=True)
+
+
+@rule("R09.7", 3, "every error leaving the YAML chunker's parser loop is wrapped as ErrorKind::InvalidData (the YAML trial skips exactly that kind): no raw propagation of the parser/encoder error", ["C09", "C12"])
+def r09_7(ctx):
+    lib = ctx.lib
+    ch = common.chunker(ctx.facts)
+    bodies = [b for b in ch["bodies"] if b.file == ch["loop"].file]
+    n_calls = 0
+    for b in bodies:
+        for bb, t in b.calls():
+            f = fn_of(t) or {}
+            callee = lib.by_id.get(f.get("resolved") or f.get("def"))
+            # the parser poll: a same-crate method returning Result<Event-like, io::Error> whose supergraph reaches libyaml
+            if not (callee and callee.file != b.file and callee.local_ty(0).startswith("std::result::Result<") and "std::io::Error" in callee.local_ty(0)):
+                continue
+            if not any((fn_of(tt) or {}).get("crate") == "unsafe_libyaml" for _, _, tt in Super(lib, callee, depth=2).calls()):
+                continue
+            if t["dest"]["pr"]:
+                continue
+            n_calls += 1
+            res = t["dest"]["l"]
+            problems = []
+            wrapped = 0
+            work = [res]
+            seen = set()
+            while work:
+                l = work.pop()
+                if l in seen:
+                    continue
+                seen.add(l)
+                for ub, ui, how in uses_of_local(b, l):
+                    if how == "drop":
+                        continue
+                    if isinstance(how, tuple) and how[0] == "callarg":
+                        ut = b.blocks[ub]["term"]
+                        uf = fn_of(ut) or {}
+                        d = uf.get("def", "")
+                        if d.startswith("std::io::Error::new"):
+                            kind = trace(b, ut["args"][0])
+                            kv = None
+                            if kind.origin and kind.origin[0] == "agg":
+                                kv = kind.origin[1]["rv"].get("variant")
+                            elif kind.origin and kind.origin[0] == "const":
+                                kv = kind.origin[1].get("variant") or kind.origin[1].get("ref_variant")
+                            if kv == "InvalidData":
+                                wrapped += 1
+                            else:
+                                problems.append((ub, f"wrapped with ErrorKind::{kv}"))
+                        elif d == "std::result::Result::<T, E>::map_err" and l == res:
+                            okc = False
+                            for c in uf.get("closures", []):
+                                cb = lib.by_id.get(c)
+                                for cbb, ct in (cb.calls() if cb else []):
+                                    if (fn_of(ct) or {}).get("def", "").startswith("std::io::Error::new"):
+                                        kind = trace(cb, ct["args"][0])
+                                        kv = kind.origin[1]["rv"].get("variant") if kind.origin and kind.origin[0] == "agg" else ((kind.origin[1].get("variant") or kind.origin[1].get("ref_variant")) if kind.origin and kind.origin[0] == "const" else None)
+                                        payload = trace(cb, ct["args"][1])
+                                        if kv == "InvalidData" and payload.origin and payload.origin[0] == "arg" and payload.origin[1] == 2:
+                                            okc = True
+                            if okc:
+                                wrapped += 1
+                            else:
+                                problems.append((ub, "map_err closure does not wrap the error as InvalidData"))
+                        elif d == "std::ops::Try::branch" and l == res:
+                            problems.append((ub, "`?` propagates the parser/encoder error unwrapped"))
+                        elif l != res and (d.startswith("std::convert::Into") or d.startswith("std::convert::From") or d.startswith("std::boxed::Box")):
+                            if not ut["dest"]["pr"]:
+                                work.append(ut["dest"]["l"])
+                        elif l != res:
+                            problems.append((ub, f"error handed to {d}"))
+                    elif how == "stmt":
+                        st = b.blocks[ub]["stmts"][ui]
+                        rv = st["rv"]
+                        if rv["k"] == "discr":
+                            continue
+                        if rv["k"] == "use" and is_place(rv["op"]) and rv["op"]["p"]["l"] == l:
+                            proj = [e for e in rv["op"]["p"]["pr"]]
+                            if l == res and not any(e["k"] == "downcast" and e["variant"] == "Err" for e in proj):
+                                # Ok payload / whole-value move
+                                if proj:
+                                    continue
+                            if not st["p"]["pr"] and st["p"]["l"] != 0:
+                                work.append(st["p"]["l"])
+                            else:
+                                problems.append((ub, "error stored or returned without wrapping"))
+                        elif rv["k"] == "aggregate" and l != res:
+                            problems.append((ub, f"error placed in {rv.get('variant') or rv.get('agg')}(..) without the InvalidData wrap"))
+                        elif rv["k"] in ("ref",) and l != res:
+                            work.append(st["p"]["l"]) if not st["p"]["pr"] else None
+                    elif how == "ret" and l != res:
+                        problems.append((ub, "error returned without wrapping"))
+            ok = not problems and wrapped >= 1
+            det = f"the poll's error reaches the caller only inside io::Error::new(InvalidData, ..) ({wrapped} wrap site(s))" if ok else ("; ".join(p_[1] for p_ in problems) or "no InvalidData wrap of the poll's error found")
+            ctx.ob(f"poll-error-wrapped:{b.name}", ok, site(b, problems[0][0] if problems else bb), det)
+    ctx.ob("parser-polls", n_calls >= 1, site(ch["loop"]), f"{n_calls} parser poll(s) in the chunker")
+    # the trial's discriminator is that very kind
+    yt = common.trial_functions(ctx.facts)["yaml"]
+    kinds = []
+    for sup_n, bx, t in Super(lib, yt, depth=2).calls():
+        f = fn_of(t) or {}
+        if f.get("trait") == "std::cmp::PartialEq" and "ErrorKind" in f.get("self_ty", ""):
+            for a in t["args"]:
+                tr = trace(bx, a)
+                if tr.origin and tr.origin[0] == "const":
+                    kinds.append(tr.origin[1].get("ref_variant") or tr.origin[1].get("variant"))
+    ctx.ob("trial-skips-InvalidData", kinds == ["InvalidData"], site(yt), f"the YAML trial discriminates on ErrorKind {kinds}")
 
 
 @rule("R09.6", 4, "the capture reader marks end-of-input only on evidence of EOF from a successful source read (never on a short read or an error edge)", ["C09", "C12", "C03", "C02", "C10"])
